@@ -25,6 +25,8 @@ cannot encode and whose str() is s; ["list"|"tuple"|"set", [..]] is a container 
 ["obj", str(container)]).  A specification may carry "sub": true (the string / list / tuple is an instance of a
 subclass: _Str, _L, a named tuple).  Data of a value: null / bool / int / string / {"tuple":true} / {"k":KIND}.
 A select case also builds a twin selector FIRST from the same specification object with the other raise_on_error.
+Only the public interface of lena objects is used (with "top":"filter" the per-value result is what Filter.fill_into does
+with the value); the private module-level names _GroupBy, _split_key, _startswith are looked up defensively (see ASSUMPTIONS).
 """
 import collections
 import collections.abc
@@ -166,6 +168,17 @@ ASSUMPTIONS = [
     "group_by and merge are strings, tuples/lists of strings or non-iterables; SelectContext keys are strings, lists or "
     "dictionaries; keys returned by the callables of the deprecated _GroupBy are None, ints or strings (no bools: True == 1 "
     "would merge); the sequence inside RunIf does not raise; __eq__/__repr__ of the classes are not modelled",
+    "the harness observes lena through its public interface only: the selector a Filter holds is a private attribute, "
+    "so 'the Filter's selector applied to one value' is observed as Filter.fill_into(element, value) filling the element "
+    "or not (the selector's exception comes through unchanged), never by reading the attribute; no private attribute or "
+    "method of a lena object is read, set or patched, no __name__ / repr of lena objects is compared.  Three private "
+    "module-level names have no public counterpart: the deprecated class lena.flow.group_by._GroupBy (theorems "
+    "old_groupby_partition, old_groupby_first_error) and the helpers _split_key / _startswith of "
+    "lena.context.include_exclude_tree (correspondence of the model's splitKey / startsWith only).  They are looked up "
+    "defensively: if lena no longer spells one of them that way, its cases return {'skipped': ...}, are neither compared "
+    "nor judged, count as trivial and are counted in the input histogram of the evidence under "
+    "'<op>:skipped-private-name-missing' - never an alarm, never a crash; the public behaviour they serve "
+    "(make_include_exclude_tree, GroupBy) is checked through the public classes in the groupby cases",
 ]
 RULE = ("Keys 'a', 'ab' (one a string prefix of the other), 'b'; every context built in one of three insertion orders, about "
         "half of the dictionaries as instances of a dict subclass. select: specifications of depth <= 2 over 4 leaves (quick: a "
@@ -1226,6 +1239,29 @@ def _gb_arg(x):
     return tuple(x) if isinstance(x, list) else x
 
 
+class _FillStore(object):
+    """an element with fill(value): remembers what it was filled with"""
+
+    def __init__(self):
+        self.vals = []
+
+    def fill(self, v):
+        self.vals.append(v)
+
+
+_PRIVATE_MISSING = "skipped: the private name %s of lena is not there (renamed or removed); nothing public observes it"
+
+
+def _private(module, name):
+    """a private module-level name of lena (the deprecated class _GroupBy, the helpers _split_key / _startswith), read
+    defensively: None when lena no longer spells it that way - the observation is then skipped, never an alarm"""
+    import importlib
+    try:
+        return getattr(importlib.import_module(module), name, None)
+    except ImportError:
+        return None
+
+
 def run_impl(case):
     import lena.core
     import lena.flow
@@ -1239,7 +1275,14 @@ def run_impl(case):
             twin = lena.flow.Selector(py, raise_on_error=twin_roe)
             if case["top"] == "filter":
                 flt = lena.flow.Filter(py)
-                sel = flt._selector
+
+                # "the selector of the Filter applied to one value", observed through the public interface only (the
+                # attribute that holds the selector is private): fill_into(element, v) fills the element exactly when
+                # the value is selected, and lets the selector's exception through as it is
+                def sel(v, flt=flt):
+                    st = _FillStore()
+                    flt.fill_into(st, v)
+                    return len(st.vals) == 1
             else:
                 sel = lena.flow.Selector(py, raise_on_error=case["roe"])
                 flt = lena.flow.Filter(sel)
@@ -1251,13 +1294,7 @@ def run_impl(case):
         kept, stop = _drain(lambda: flt.run(iter(vals)))
 
         # fill_into: the element is filled exactly with the selected values
-        class _Store:
-            def __init__(self):
-                self.vals = []
-
-            def fill(self, v):
-                self.vals.append(v)
-        st = _Store()
+        st = _FillStore()
         filled = []
         for v in vals:
             n = len(st.vals)
@@ -1267,7 +1304,7 @@ def run_impl(case):
             except Exception as e:  # noqa: BLE001
                 filled.append({"e": exc_name(e)})
         # a flow filled into one element through fill_into, up to the first exception
-        st2, fill_stop = _Store(), None
+        st2, fill_stop = _FillStore(), None
         for v in vals:
             try:
                 flt.fill_into(st2, v)
@@ -1390,7 +1427,9 @@ def run_impl(case):
         return {"groups": groups, "keys": keys, "keystrs": keystrs, "errors": errors, "after": after, "reuse": reuse,
                 "gvals": gvals}
     if op == "oldgroupby":
-        import lena.flow.group_by
+        old_group_by = _private("lena.flow.group_by", "_GroupBy")
+        if old_group_by is None:
+            return {"skipped": _PRIVATE_MISSING % "lena.flow.group_by._GroupBy"}
         gbj = case["group_by"]
         t = _keyfn_table()
         if isinstance(gbj, dict):
@@ -1400,7 +1439,7 @@ def run_impl(case):
         else:
             arg = t[gbj]
         try:
-            gb = lena.flow.group_by._GroupBy(arg)
+            gb = old_group_by(arg)
         except Exception as e:  # noqa: BLE001
             return {"init": exc_name(e)}
         errors = []
@@ -1429,13 +1468,17 @@ def run_impl(case):
         import lena.context
         return {"r": _out(lena.context.contains, _mk(case["ctx"], case.get("o", 0)), case["s"])}
     if op == "splitkey":
-        from lena.context.include_exclude_tree import _split_key
+        _split_key = _private("lena.context.include_exclude_tree", "_split_key")
+        if _split_key is None:
+            return {"skipped": _PRIVATE_MISSING % "lena.context.include_exclude_tree._split_key"}
         try:
             return {"r": list(_split_key(case["s"]))}
         except Exception as e:  # noqa: BLE001
             return {"e": exc_name(e)}
     if op == "startswith":
-        from lena.context.include_exclude_tree import _startswith
+        _startswith = _private("lena.context.include_exclude_tree", "_startswith")
+        if _startswith is None:
+            return {"skipped": _PRIVATE_MISSING % "lena.context.include_exclude_tree._startswith"}
         return {"r": _out(_startswith, list(case["a"]), list(case["b"]))}
     raise ValueError(op)
 
@@ -1515,6 +1558,8 @@ def compare(case, res, replies):
 
 
 def _compare(case, res, replies):
+    if "skipped" in res:
+        return None          # a private name of lena that is not there: nothing observed, nothing to compare
     m = replies[0]
     if "err" in m:
         return f"model driver error: {m['err']}"
@@ -1913,6 +1958,8 @@ def _jsonable(x):
 
 
 def _oracle(case, res):
+    if "skipped" in res:
+        return None          # a private helper / the deprecated private class is not there: no observation, no alarm
     op = case["op"]
     if op == "select":
         spec = case["spec"]
@@ -2154,6 +2201,8 @@ def _oracle_old(case, res):
 # ---------------------------------------------------------------------------------------------
 
 def nontrivial(case, res):
+    if "skipped" in res:
+        return False
     if "init" in res:
         return True
     op = case["op"]
@@ -2175,6 +2224,8 @@ def _depth(s):
 
 
 def classify(case, res):
+    if "skipped" in res:
+        return [case["op"], case["op"] + ":skipped-private-name-missing"]
     op = case["op"]
     if op == "select":
         labels = [f"select:{case['top']}:depth={_depth(case['spec'])}:roe={case['roe']}", "select:top=" + case["spec"]["t"]]
